@@ -21,13 +21,15 @@ import re
 from glue.core import DataCollection
 from glue.core import command as gcmd
 from glue.core.application_base import Application
+from glue.core.hub import HubListener
+from glue.core.message import Message
 from glue.core.roi import RectangularROI, XRangeROI
 from glue.core.session import Session
 from glue.core.subset import roi_to_subset_state
 
 from vf.common import exc_name
 from vf.lib_C06_world import (MODES, STATE_VARIANTS, Names, build_state, diff_fields, fresh_data, is_in, mask_changes,
-                              raised_below_harness, snapshot)
+                              mask_of, raised_below_harness, snapshot)
 
 ID = "C13"
 LEVEL = "exploration"
@@ -65,7 +67,10 @@ ANCHORS = ["glue.core.command:CommandStack.do", "glue.core.command:CommandStack.
 MAX_UNDO = getattr(gcmd, "MAX_UNDO", 50)
 
 ROIS = [("rect", "d0_x", "d0_w", [1.5, 4.5, 1.0, 4.0]), ("rect", "d1_x", "d1_w", [0.5, 3.5, 0.0, 3.0]),
-        ("xrange", "d0_x", "d0_w", [2.5, 9.0]), ("rect", "d2_x", "d2_w", [0.5, 4.5, 0.5, 2.5])]
+        ("xrange", "d0_x", "d0_w", [2.5, 9.0]), ("rect", "d2_x", "d2_w", [0.5, 4.5, 0.5, 2.5]),
+        # adversarial round: zero-area, zero-width, huge and tiny regions (falsy / extreme legal values, magnitude)
+        ("rect", "d0_x", "d0_w", [2.0, 2.0, 2.5, 2.5]), ("xrange", "d1_x", "d1_w", [3.0, 3.0]),
+        ("rect", "d0_x", "d0_w", [-1e12, 1e12, -1e12, 1e12]), ("xrange", "d0_x", "d0_w", [3.0 - 1e-10, 3.0 + 1e-10])]
 
 
 class Stop(Exception):
@@ -144,6 +149,35 @@ class World:
         self.flags = set()
         self.undo_run = 0
         self.order_deviated = False
+        self.shared_states = {}
+        self.n_fault = 0
+        self.observer = None
+
+    def observe(self):
+        """Read-only re-entrancy: a callback on the stack and a hub listener that read the session through the public API
+        while a command is being (un)done / a message is being broadcast.  Never a verdict (mid-update states)."""
+        if self.observer is not None:
+            return
+        w = self
+
+        def on_stack(*args):
+            w.stack.can_undo_redo()
+            (w.stack.undo_label, w.stack.redo_label)
+            w.ctx.count("reads_in_stack_callback")
+        self.stack.add_callback(on_stack)
+
+        class Obs(HubListener):
+            def notify(self, msg):
+                sub = getattr(msg, "subset", None)
+                if sub is not None and getattr(sub, "data", None) is not None and is_in(sub, sub.data.subsets):
+                    mask_of(sub)
+                for d in w.dc:
+                    len(d.subsets)
+                list(w.mode.edit_subset or [])
+                w.ctx.count("reads_during_broadcast")
+        self.observer = Obs()
+        self.dc.hub.subscribe(self.observer, Message)
+        self.flags.add("observer_reading_during_updates")
 
     def data(self, name):
         d = self.pool.get(name)
@@ -183,6 +217,16 @@ class World:
             if tok[2] is not None:
                 kw["override_mode"] = MODES[tok[2]]
             return gcmd.ApplySubsetState(data_collection=self.dc, subset_state=build_state(STATE_VARIANTS[tok[1] % len(STATE_VARIANTS)], self.cid), **kw)
+        if op == "apply_shared":
+            # the same SubsetState object handed to several commands (ReplaceMode copies it, the combining modes do not)
+            k = tok[1] % len(STATE_VARIANTS)
+            if k not in self.shared_states:
+                self.shared_states[k] = build_state(STATE_VARIANTS[k], self.cid)
+            kw = {}
+            if tok[2] is not None:
+                kw["override_mode"] = MODES[tok[2]]
+            self.flags.add("shared_state_object")
+            return gcmd.ApplySubsetState(data_collection=self.dc, subset_state=self.shared_states[k], **kw)
         if op == "roi":
             kind, xl, yl, v = ROIS[tok[1] % len(ROIS)]
             roi = XRangeROI(v[0], v[1]) if kind == "xrange" else RectangularROI(xmin=v[0], xmax=v[1], ymin=v[2], ymax=v[3])
@@ -209,13 +253,21 @@ class World:
                 ctx.count("degenerate_command_not_generated_" + op)
                 self.executed.pop()
                 return
-            if op in ("apply", "roi") and len(self.dc) == 0:
+            if op == "observe":
+                self.observe()
+                self.check_stack(op)
+                return
+            if op == "fault_do":
+                self.fault_do(tok, before)
+                self.check_stack(op)
+                return
+            if op in ("apply", "apply_shared", "roi") and len(self.dc) == 0:
                 # a selection applied to an empty collection is observable on no dataset (and the commands capture the
                 # previous selection through member subsets); outside the stated domain, counted
                 ctx.count("degenerate_command_not_generated_selection_on_empty_collection")
                 self.executed.pop()
                 return
-            if op in ("add", "rem", "apply", "roi"):
+            if op in ("add", "rem", "apply", "apply_shared", "roi"):
                 cmd = self.make_cmd(tok)
                 self.info["cmd"] = type(cmd).__name__
                 self.info["step"] = "do"
@@ -259,6 +311,10 @@ class World:
                 ent = src[-1]
                 self.info["cmd"] = ent["cmd"]
                 self.info["ent"] = ent
+                if ent.get("failed"):
+                    self.walk_over_failed(op, ent, real)
+                    self.check_stack(op)
+                    return
                 real()
                 src.pop()
                 dst.append(ent)
@@ -307,6 +363,67 @@ class World:
                 self.fail("icontract_stack_bound_violated", {}, {"message": str(exc)[:200]})
             self.fail("exception", {"exc": exc_name(exc)}, {"message": repr(exc)[:300]})
         self.check_stack(op)
+
+    # ---- fault sequences: a command whose do() raises, followed by valid commands
+    def fault_do(self, tok, before):
+        ctx = self.ctx
+        self.n_fault += 1
+        label = "failing command #%d" % self.n_fault       # unique label: lets the model see what the stack did with it
+        if tok[1] % 2 == 0:
+            def refuse(roi):
+                raise ValueError("viewer could not apply the region")
+            cmd = type("FailingApplyROI", (gcmd.ApplyROI,), {"label": label})(
+                data_collection=self.dc, roi=RectangularROI(xmin=0, xmax=1, ymin=0, ymax=1), apply_func=refuse)
+            expected = ValueError
+        else:
+            cmd = type("FailingAddData", (gcmd.AddData,), {"label": label})(data=object())
+            expected = TypeError
+        self.info["cmd"] = type(cmd).__name__
+        self.info["step"] = "do"
+        try:
+            self.r_do(cmd)
+            ctx.count("failing_do_did_not_raise")
+        except expected:
+            ctx.count("failing_do_raised")
+        after = self.snap()
+        self.cur = after
+        if after[0] != before[0]:
+            self.fail("failed_do_changed_the_session", {"diff": "+".join(diff_fields(after[0], before[0]))}, {})
+        # the statement is silent on what the stack does with a command that failed; mirror what is observable
+        cu, cr = self.stack.can_undo_redo()
+        if cu and self.stack.undo_label == label:
+            self.m_done.append({"cmd": type(cmd).__name__, "obj": cmd, "B": before, "A": after, "partial": False, "serial": self.serial,
+                                "created_group": False, "changed": False, "name": None, "failed": True})
+            self.m_done = self.m_done[-MAX_UNDO:]
+            ctx.count("failed_command_kept_on_undo_history")
+        else:
+            ctx.count("failed_command_not_kept")
+        if not cr:
+            self.m_undone = []
+        self.undo_run = 0
+        self.flags.add("failing_command")
+
+    def walk_over_failed(self, op, ent, real):
+        """undo / redo reaches a command whose do() had failed: anything it does is tolerated (counted); the model follows
+        what the labels show.  Later comparisons protect themselves through their start-state precondition."""
+        ctx = self.ctx
+        label = ent["obj"].label
+        try:
+            real()
+            ctx.count("%s_of_failed_command_returned" % op)
+        except Exception:
+            ctx.count("%s_of_failed_command_raised" % op)
+        for lst in (self.m_done, self.m_undone):
+            if lst and lst[-1] is ent:
+                lst.pop()
+        if self.stack.undo_label == label:
+            self.m_done.append(ent)
+        elif self.stack.redo_label == label:
+            self.m_undone.append(ent)
+        else:
+            ctx.count("failed_command_dropped_from_history")
+        self.cur = self.snap()
+        self.undo_run = 0
 
     def taint(self):
         self.flags.add("user_changed_mode_or_edit_subset_mid_history")
@@ -462,7 +579,8 @@ ENUM = {"quick": [("empty", 3, ALPHABET), ("data_only", 3, ALPHABET), ("one_grou
         "thorough": [(s, 4, ALPHABET) for s in SETUPS] + [("one_group_edited", 5, ALPHABET),
                                                          ("two_groups_one_edited_and", 6, [ALPHABET[i] for i in REDUCED])]}
 N_RANDOM = {"quick": 1600, "thorough": 60000}
-N_WALK = {"quick": 600, "thorough": 20000}
+N_WALK = {"quick": 500, "thorough": 20000}
+N_WIDE = {"quick": 500, "thorough": 20000}     # widened random class (adversarial round), see wide_history
 # walk family: every 2- (3-) command prefix, then walk the whole stack down, up and down again
 WALK_CMDS = [["add", "d2"], ["rem", "d1"], ["apply", 4, None], ["apply", 2, "or"], ["roi", 0], ["roi", 1], ["add", "e1"],
              ["rem", "d0"], ["apply", 1, "new"]]
@@ -495,6 +613,7 @@ def _streams(tier, seed):
     out.append([["rand", i] for i in range(0, N_RANDOM[tier], BLOCK)])
     out.append([["bound", i] for i in range(N_BOUND[tier])])
     out.append([["walk", i] for i in range(0, N_WALK[tier], BLOCK)])
+    out.append([["wide", i] for i in range(0, N_WIDE[tier], BLOCK)])
     out.append([["walk2", si, a] for si in range(len(WALK_SETUPS)) for a in range(len(WALK_CMDS))])
     ns, nc, _ = WALK3[tier]
     out.append([["walk3", si, a, b] for si in range(ns) for a in range(nc) for b in range(nc)])
@@ -574,9 +693,27 @@ def walk_history(rng):
     return hist
 
 
+def wide_history(rng):
+    """random / walk-shaped history with: an observer reading during updates, the same state object in several commands,
+    commands whose do() raises followed by valid ones, degenerate and extreme regions (through the longer ROIS table)."""
+    base = walk_history(rng) if rng.random() < 0.5 else random_history(rng)
+    modes = [None, "replace", "and", "or", "xor", "andnot", "new"]
+    out = [["observe"]] if rng.random() < 0.6 else []
+    for tok in base:
+        r = rng.random()
+        if tok[0] == "apply" and r < 0.5:
+            out.append(["apply_shared", rng.choice([0, 1, 2, 4]), rng.choice(modes)])
+        elif tok[0] in ("apply", "roi", "add", "rem") and r > 0.85:
+            out.append(["fault_do", rng.randrange(2)])
+            out.append(tok)
+        else:
+            out.append(tok)
+    return out
+
+
 def bound_history(rng):
     """More than MAX_UNDO commands, then undo until nothing is left (plus two more), with a redo/undo pair on the way."""
-    n = MAX_UNDO + rng.randint(1, 6)
+    n = MAX_UNDO + rng.choice([-1, 0, 1, 1, 2, 3, 6])      # just below, at and above the bound
     hist = []
     last = None
     fresh = ["e2", "e1"]
@@ -609,6 +746,10 @@ def run_case(ctx, case):
         for _ in range(BLOCK):
             setup_name = ctx.rng.choice(sorted(SETUPS) + WALK_SETUPS)
             run_history(ctx, setup_name, walk_history(ctx.rng), "walk_random", use_app=ctx.rng.random() < 0.5)
+    elif case[0] == "wide":
+        for _ in range(BLOCK):
+            setup_name = ctx.rng.choice(sorted(SETUPS) + WALK_SETUPS)
+            run_history(ctx, setup_name, wide_history(ctx.rng), "wide_random", use_app=ctx.rng.random() < 0.5)
     elif case[0] == "walk2":
         _, si, a = case
         for b in range(len(WALK_CMDS)):
@@ -645,7 +786,11 @@ def floors(counters, tier):
             "histories_with_redo_after_undo": 200, "histories_that_filled_the_undo_history": 3, "histories_enumerated": 4000,
             "histories_random": 400, "stack_model_comparisons": 15000, "dataset_order_compared": 1500,
             "histories_walk_enumerated": 400, "histories_walk_random": 120, "compared_undo_of_redone_command": 500,
-            "compared_undo_of_redone_selection_command": 200}
+            "compared_undo_of_redone_selection_command": 200,
+            # adversarial widening round
+            "histories_wide_random": 120, "histories_with_observer_reading_during_updates": 60, "reads_during_broadcast": 500,
+            "reads_in_stack_callback": 300, "histories_with_shared_state_object": 50, "histories_with_failing_command": 50,
+            "failing_do_raised": 60}
     if tier == "thorough":
         need = {k: 2 * v for k, v in need.items()}
         need["histories_that_filled_the_undo_history"] = 6
